@@ -243,10 +243,13 @@ Proof. exact Proofs.Pipeline.check_fields_spec_ok. Qed.
 Print Assumptions C14_pipeline_parse_models_agree.
 
 (** PARTIAL (C15 at the level of the run): runs whose tuple lists are
-    permutations of each other have the same multiset in every cell.  Missing:
-    that permuting result LINES of the text within a configuration scope
-    permutes the tuples up to a renaming of Keys (first-seen interning and
-    first-seen .config sub-field creation rename them); see Proofs/Pipeline.v. *)
+    permutations of each other have the same multiset in every cell.  The
+    statement from the RECORDS the reader delivers - permuted result records
+    give permuted tuples up to a renaming of Keys (first-seen interning and
+    first-seen .config sub-field creation rename them) - is
+    C14_pipeline_line_perm below.  Still missing: that permuting result LINES
+    of the text within one configuration scope permutes the records (a fact
+    about Reader on text layout, not about the pipeline). *)
 Theorem C14_pipeline_line_perm_partial :
   forall is_space is_lower is_upper atoi parse_float re_ok rematch fl files fl' files' o o' assign assign' t r c,
   Proofs.Pipeline.run_facts is_space is_lower is_upper atoi parse_float re_ok rematch fl files o assign ->
@@ -281,3 +284,276 @@ Example C14_pipeline_example :
   | PErr _ => False
   end.
 Proof. vm_compute. repeat split. Qed.
+
+(** * Table Keys, and the order of the result lines
+    (Proofs/PipelineKeys.v, Proofs/ProjectionRename.v, Proofs/PipelinePerm.v) *)
+From Perf Require Proofs.LosslessUnits Proofs.ProjectionRename Proofs.PipelineKeys Proofs.PipelinePerm.
+
+(** pipeline_table_key_meaning: the counterpart of C14_pipeline_key_meaning for
+    the TABLE Keys (tableBy.ProjectValues).  The [i]-th kept result has one
+    table Key per remaining measurement, in order; read in the table projection
+    as it is after the whole run, the Key of a measurement holds that
+    measurement's TIDIED unit in the projection's unit field (a field named
+    ".unit") and, in every other field, what that field's extractor yields on
+    the result; every file key of the result that no flag names has a sub-field
+    in every .config group, holding its value in each of these Keys; no group
+    has a sub-field for an individually named key *)
+Theorem C14_pipeline_table_key_meaning :
+  forall is_space is_lower is_upper atoi parse_float re_ok rematch fl files o assign i k a,
+  Proofs.Pipeline.run_facts is_space is_lower is_upper atoi parse_float re_ok rematch fl files o assign ->
+  nth_error (o_kept o) i = Some k -> nth_error assign i = Some a ->
+  let pa := Proofs.Exclusion.parser_after (Proofs.Pipeline.calls_of (o_compiled o)) in
+  exists pF u, nth_error (Projection.w_projs (o_world o)) pi_table = Some pF /\
+    Projection.p_unit pF = Some u /\ Projection.field_name pF u = Projection.key_unit /\
+    Forall2 (fun key un => key < length (Projection.p_keys pF) /\ Projection.key_get pF key u = un /\
+               forall idx f, nth_error (Projection.p_fields pF) idx = Some f -> idx <> u ->
+                 Projection.key_get pF key idx = Proofs.KeyGet.want (Projection.pp_full pa) (k_res k) f)
+            (Proofs.Pipeline.a_tables a) (Projection.r_units (k_res k)) /\
+    (forall g ord cf, In (Projection.PConfig g ord) (Projection.p_items pF) ->
+       In cf (Projection.r_cfg (k_res k)) -> c_file cf = true -> ~ In (c_key cf) (Projection.pp_cfg pa) ->
+       exists j, In j (Projection.group_subs pF g) /\ Projection.field_name pF j = c_key cf /\ j <> u /\
+                 forall key, In key (Proofs.Pipeline.a_tables a) -> Projection.key_get pF key j = c_val cf) /\
+    (forall g j, In j (Projection.group_subs pF g) -> ~ In (Projection.field_name pF j) (Projection.pp_cfg pa)).
+Proof. exact Proofs.PipelineKeys.table_key_meaning. Qed.
+Print Assumptions C14_pipeline_table_key_meaning.
+
+(** the same per measurement, in the vocabulary of the tuples: the [j]-th table
+    Key of a kept result goes with its [j]-th remaining value; Key.Get(unitField)
+    of it - what main.go prints and asks GetAssumption about - is that
+    measurement's tidied unit; and (that Key, row, column, residue, value) is a
+    tuple Builder.Add received *)
+Theorem C14_pipeline_table_key_of_measurement :
+  forall is_space is_lower is_upper atoi parse_float re_ok rematch fl files o assign i k a j key,
+  Proofs.Pipeline.run_facts is_space is_lower is_upper atoi parse_float re_ok rematch fl files o assign ->
+  nth_error (o_kept o) i = Some k -> nth_error assign i = Some a ->
+  nth_error (Proofs.Pipeline.a_tables a) j = Some key ->
+  exists un v, nth_error (Projection.r_units (k_res k)) j = Some un /\ nth_error (k_vals k) j = Some v /\
+    table_unit (proj_of (o_world o) pi_table) key = un /\
+    In (mk_meas (Proofs.Pipeline.a_row a) (Proofs.Pipeline.a_col a) (Proofs.Pipeline.a_res a) (key, v)) (o_tuples o).
+Proof. exact Proofs.PipelineKeys.table_key_of_measurement. Qed.
+Print Assumptions C14_pipeline_table_key_of_measurement.
+
+(** what [key_renaming p p' phi psi] says: [phi]/[psi] are inverse bijections
+    between the Key numbers of [p] and of [p']; a Key and its image read the
+    same in every pair of corresponding fields - same name, same kind (made
+    for one key / .fullname / .config sub-field / .unit), both or neither the
+    unit field; and every field of either projection has a corresponding field
+    in the other (sub-fields of .config are numbered in first-seen order, so
+    their indexes differ too) *)
+Theorem C14_key_renaming_spelled : forall p p' phi psi,
+  Proofs.ProjectionRename.key_renaming p p' phi psi ->
+  (forall k, k < length (Projection.p_keys p) -> phi k < length (Projection.p_keys p') /\ psi (phi k) = k) /\
+  (forall k', k' < length (Projection.p_keys p') -> psi k' < length (Projection.p_keys p) /\ phi (psi k') = k') /\
+  (forall k idx f idx' f', k < length (Projection.p_keys p) ->
+     nth_error (Projection.p_fields p) idx = Some f -> nth_error (Projection.p_fields p') idx' = Some f' ->
+     Projection.fi_name f = Projection.fi_name f' -> Projection.fi_src f = Projection.fi_src f' ->
+     (Projection.p_unit p = Some idx <-> Projection.p_unit p' = Some idx') ->
+     Projection.key_get p k idx = Projection.key_get p' (phi k) idx') /\
+  (forall idx f, nth_error (Projection.p_fields p) idx = Some f ->
+     exists idx' f', nth_error (Projection.p_fields p') idx' = Some f' /\
+       Projection.fi_name f = Projection.fi_name f' /\ Projection.fi_src f = Projection.fi_src f' /\
+       (Projection.p_unit p = Some idx <-> Projection.p_unit p' = Some idx')) /\
+  (forall idx' f', nth_error (Projection.p_fields p') idx' = Some f' ->
+     exists idx f, nth_error (Projection.p_fields p) idx = Some f /\
+       Projection.fi_name f = Projection.fi_name f' /\ Projection.fi_src f = Projection.fi_src f' /\
+       (Projection.p_unit p = Some idx <-> Projection.p_unit p' = Some idx')).
+Proof. exact Proofs.ProjectionRename.key_renaming_spelled. Qed.
+Print Assumptions C14_key_renaming_spelled.
+
+(** the Key-renaming invariant of the projection stream (C08 level), for a
+    projection used through Project (rows, columns, residue): two streams of
+    Project/ProjectValues calls, run after the same Parse calls and Residue,
+    that put the same SET of results through projection [pi] end with Key sets
+    that are renamings of each other, and the renaming maps the Key a result
+    got in one stream to the Key the same result got in the other *)
+Theorem C14_projection_renaming_plain : forall calls,
+  Forall Proofs.Lossless.call_ok calls ->
+  forall opsA opsB,
+  Forall Proofs.ProjectionRename.proj_only opsA -> Forall Proofs.ProjectionRename.proj_only opsB ->
+  Forall Proofs.KeyGet.op_wf opsA -> Forall Proofs.KeyGet.op_wf opsB ->
+  forall pi p0,
+  let w0 := fst (Projection.run_ops Projection.new_world (Proofs.Lossless.parse_ops calls ++ [Projection.OpResidue])) in
+  nth_error (Projection.w_projs w0) pi = Some p0 ->
+  (forall r, In (Projection.OpProject pi r) opsA <-> In (Projection.OpProject pi r) opsB) ->
+  (forall r, In (Projection.OpProjectValues pi r) opsA <-> In (Projection.OpProjectValues pi r) opsB) ->
+  (forall r, ~ In (Projection.OpProjectValues pi r) opsA) ->
+  exists pA pB phi psi,
+    nth_error (Projection.w_projs (fst (Projection.run_ops w0 opsA))) pi = Some pA /\
+    nth_error (Projection.w_projs (fst (Projection.run_ops w0 opsB))) pi = Some pB /\
+    Proofs.ProjectionRename.key_renaming pA pB phi psi /\
+    (forall r k k',
+       Proofs.ProjectionRename.handed_plain opsA (snd (Projection.run_ops w0 opsA)) pi r k ->
+       Proofs.ProjectionRename.handed_plain opsB (snd (Projection.run_ops w0 opsB)) pi r k' ->
+       k' = phi k /\ k = psi k').
+Proof. exact Proofs.ProjectionRename.plain_renaming. Qed.
+Print Assumptions C14_projection_renaming_plain.
+
+(** ... and for the projection used through ProjectValues (tables, by unit):
+    the renaming maps the Key of (result, unit of a measurement) to the Key
+    the same pair got in the other stream *)
+Theorem C14_projection_renaming_unit : forall calls,
+  Forall Proofs.Lossless.call_ok calls ->
+  forall opsA opsB,
+  Forall Proofs.ProjectionRename.proj_only opsA -> Forall Proofs.ProjectionRename.proj_only opsB ->
+  Forall Proofs.KeyGet.op_wf opsA -> Forall Proofs.KeyGet.op_wf opsB ->
+  forall pi p0,
+  let w0 := fst (Projection.run_ops Projection.new_world (Proofs.Lossless.parse_ops calls ++ [Projection.OpResidue])) in
+  nth_error (Projection.w_projs w0) pi = Some p0 ->
+  (forall r, In (Projection.OpProject pi r) opsA <-> In (Projection.OpProject pi r) opsB) ->
+  (forall r, In (Projection.OpProjectValues pi r) opsA <-> In (Projection.OpProjectValues pi r) opsB) ->
+  forall u, Projection.p_unit p0 = Some u ->
+  (forall r, ~ In (Projection.OpProject pi r) opsA) ->
+  exists pA pB phi psi,
+    nth_error (Projection.w_projs (fst (Projection.run_ops w0 opsA))) pi = Some pA /\
+    nth_error (Projection.w_projs (fst (Projection.run_ops w0 opsB))) pi = Some pB /\
+    Proofs.ProjectionRename.key_renaming pA pB phi psi /\
+    (forall x k k',
+       Proofs.ProjectionRename.handed_unit opsA (snd (Projection.run_ops w0 opsA)) pi x k ->
+       Proofs.ProjectionRename.handed_unit opsB (snd (Projection.run_ops w0 opsB)) pi x k' ->
+       k' = phi k /\ k = psi k').
+Proof. exact Proofs.ProjectionRename.unit_renaming. Qed.
+Print Assumptions C14_projection_renaming_unit.
+
+(** pipeline_line_perm (C15 for cmd/benchstat, from the records).  Two
+    successful runs with the same compiled flags whose RESULT records say the
+    same things in a different order - [content]: name, file configuration in
+    scope, values with tidied units; not the position (file, line) of a record,
+    nor unit-metadata or syntax-error records - produce the same cells up to the
+    renaming of interned Key numbers: for the table, row, column and residue
+    projections there are bijections [ren pi]/[inv pi] of Key numbers that
+    preserve every reading (C14_key_renaming_spelled); the tuples of the second
+    run are a permutation of the renamed tuples of the first; and cell
+    (t, r, c) of the first run and cell (ren t, ren r, ren c) of the second
+    hold the same multiset of values *)
+Theorem C14_pipeline_line_perm :
+  forall is_space is_lower is_upper atoi parse_float re_ok rematch fl files fl' files' o o' assign assign',
+  Proofs.Pipeline.run_facts is_space is_lower is_upper atoi parse_float re_ok rematch fl files o assign ->
+  Proofs.Pipeline.run_facts is_space is_lower is_upper atoi parse_float re_ok rematch fl' files' o' assign' ->
+  o_compiled o = o_compiled o' ->
+  Permutation (map Proofs.PipelinePerm.content (Proofs.PipelinePerm.results_of (o_records o)))
+              (map Proofs.PipelinePerm.content (Proofs.PipelinePerm.results_of (o_records o'))) ->
+  exists ren inv : nat -> nat -> nat,
+    (forall pi, In pi [pi_table; pi_row; pi_col; pi_residue] ->
+       exists pF pF', nth_error (Projection.w_projs (o_world o)) pi = Some pF /\
+                      nth_error (Projection.w_projs (o_world o')) pi = Some pF' /\
+                      Proofs.ProjectionRename.key_renaming pF pF' (ren pi) (inv pi)) /\
+    Permutation (map (Proofs.PipelinePerm.rename_meas ren) (o_tuples o)) (o_tuples o') /\
+    (forall t r c, t < Proofs.PipelinePerm.nkeys o pi_table -> r < Proofs.PipelinePerm.nkeys o pi_row ->
+       c < Proofs.PipelinePerm.nkeys o pi_col ->
+       Permutation (lookup_vals (build (o_tuples o)) (N.of_nat t) (N.of_nat r) (N.of_nat c))
+                   (lookup_vals (build (o_tuples o'))
+                      (N.of_nat (ren pi_table t)) (N.of_nat (ren pi_row r)) (N.of_nat (ren pi_col c)))).
+Proof. exact Proofs.PipelinePerm.line_perm_records. Qed.
+Print Assumptions C14_pipeline_line_perm.
+
+(** the same from the kept results ([kc]: the result as Builder.Add sees it and
+    its remaining values), with the Keys of corresponding results related
+    one by one: a result kept in both runs gets, in the second run, exactly the
+    renamed Keys it got in the first *)
+Theorem C14_pipeline_line_perm_renaming :
+  forall is_space is_lower is_upper atoi parse_float re_ok rematch fl fl' files files' o o' assign assign',
+  Proofs.Pipeline.run_facts is_space is_lower is_upper atoi parse_float re_ok rematch fl files o assign ->
+  Proofs.Pipeline.run_facts is_space is_lower is_upper atoi parse_float re_ok rematch fl' files' o' assign' ->
+  o_compiled o = o_compiled o' ->
+  Permutation (map Proofs.PipelinePerm.kc (o_kept o)) (map Proofs.PipelinePerm.kc (o_kept o')) ->
+  exists ren inv : nat -> nat -> nat,
+    (forall pi, In pi [pi_table; pi_row; pi_col; pi_residue] ->
+       exists pF pF', nth_error (Projection.w_projs (o_world o)) pi = Some pF /\
+                      nth_error (Projection.w_projs (o_world o')) pi = Some pF' /\
+                      Proofs.ProjectionRename.key_renaming pF pF' (ren pi) (inv pi)) /\
+    (forall i i' k a k' a', nth_error (o_kept o) i = Some k -> nth_error assign i = Some a ->
+       nth_error (o_kept o') i' = Some k' -> nth_error assign' i' = Some a' ->
+       Proofs.PipelinePerm.kc k = Proofs.PipelinePerm.kc k' -> a' = Proofs.PipelinePerm.rename_assign ren a) /\
+    Permutation (map (Proofs.PipelinePerm.rename_meas ren) (o_tuples o)) (o_tuples o').
+Proof. exact Proofs.PipelinePerm.line_perm_renaming. Qed.
+Print Assumptions C14_pipeline_line_perm_renaming.
+
+(** cells as multisets, and as LISTS when order is kept: if the kept results
+    that contribute to cell (t, r, c) of the first run and those that
+    contribute to the renamed cell of the second run are the same results in
+    the same relative order, the two cells hold the same list of values *)
+Theorem C14_pipeline_line_perm_cells :
+  forall is_space is_lower is_upper atoi parse_float re_ok rematch fl fl' files files' o o' assign assign',
+  Proofs.Pipeline.run_facts is_space is_lower is_upper atoi parse_float re_ok rematch fl files o assign ->
+  Proofs.Pipeline.run_facts is_space is_lower is_upper atoi parse_float re_ok rematch fl' files' o' assign' ->
+  o_compiled o = o_compiled o' ->
+  Permutation (map Proofs.PipelinePerm.kc (o_kept o)) (map Proofs.PipelinePerm.kc (o_kept o')) ->
+  exists ren inv : nat -> nat -> nat,
+    (forall pi, In pi [pi_table; pi_row; pi_col; pi_residue] ->
+       exists pF pF', nth_error (Projection.w_projs (o_world o)) pi = Some pF /\
+                      nth_error (Projection.w_projs (o_world o')) pi = Some pF' /\
+                      Proofs.ProjectionRename.key_renaming pF pF' (ren pi) (inv pi)) /\
+    (forall t r c, t < Proofs.PipelinePerm.nkeys o pi_table -> r < Proofs.PipelinePerm.nkeys o pi_row ->
+       c < Proofs.PipelinePerm.nkeys o pi_col ->
+       Permutation (lookup_vals (build (o_tuples o)) (N.of_nat t) (N.of_nat r) (N.of_nat c))
+                   (lookup_vals (build (o_tuples o'))
+                      (N.of_nat (ren pi_table t)) (N.of_nat (ren pi_row r)) (N.of_nat (ren pi_col c)))) /\
+    (forall t r c, t < Proofs.PipelinePerm.nkeys o pi_table -> r < Proofs.PipelinePerm.nkeys o pi_row ->
+       c < Proofs.PipelinePerm.nkeys o pi_col ->
+       let sel := fun ka => negb (Name.is_nil (Proofs.Pipeline.contrib (N.of_nat t) (N.of_nat r) (N.of_nat c) ka)) in
+       let sel' := fun ka => negb (Name.is_nil (Proofs.Pipeline.contrib (N.of_nat (ren pi_table t)) (N.of_nat (ren pi_row r))
+                                                  (N.of_nat (ren pi_col c)) ka)) in
+       map (fun ka => Proofs.PipelinePerm.kc (fst ka)) (filter sel (combine (o_kept o) assign))
+       = map (fun ka => Proofs.PipelinePerm.kc (fst ka)) (filter sel' (combine (o_kept o') assign')) ->
+       lookup_vals (build (o_tuples o)) (N.of_nat t) (N.of_nat r) (N.of_nat c)
+       = lookup_vals (build (o_tuples o'))
+           (N.of_nat (ren pi_table t)) (N.of_nat (ren pi_row r)) (N.of_nat (ren pi_col c))).
+Proof. exact Proofs.PipelinePerm.line_perm_cells. Qed.
+Print Assumptions C14_pipeline_line_perm_cells.
+
+(** non-vacuity of the hypotheses of C14_pipeline_line_perm (and of the table-Key
+    theorems): two runs on the same two files given in the two orders.  The
+    records are permuted; every number changes - table Keys 0,1,2 become 2,0,1,
+    rows and columns swap, and the .config group of the table projection has its
+    sub-fields goos, goarch in the other order - while the readings stay *)
+Definition ex_textA : bytes := bs "goos: linux" ++ [x0a] ++ bs "BenchmarkA 10 2 ns/op" ++ [x0a].
+Definition ex_textB : bytes := bs "goarch: amd64" ++ [x0a] ++ bs "BenchmarkB 10 4 ns/op 3 B/op" ++ [x0a].
+Definition ex_run_files (files : list (bytes * bytes)) :=
+  benchstat_run ex_is_space ex_is_lower ex_is_upper ex_atoi ex_pf (fun _ => true) (fun _ _ => false) default_flags files.
+Definition ex_run_ab := ex_run_files [(bs "a.txt", ex_textA); (bs "b.txt", ex_textB)].
+Definition ex_run_ba := ex_run_files [(bs "b.txt", ex_textB); (bs "a.txt", ex_textA)].
+Example C14_pipeline_line_perm_example :
+  match ex_run_ab, ex_run_ba with
+  | POk o, POk o' =>
+      o_compiled o = o_compiled o' /\
+      Permutation (map Proofs.PipelinePerm.content (Proofs.PipelinePerm.results_of (o_records o)))
+                  (map Proofs.PipelinePerm.content (Proofs.PipelinePerm.results_of (o_records o'))) /\
+      map (fun m => (m_t m, m_r m, m_c m)) (o_tuples o) = [(0, 0, 0); (1, 1, 1); (2, 1, 1)]%N /\
+      map (fun m => (m_t m, m_r m, m_c m)) (o_tuples o') = [(0, 0, 0); (1, 0, 0); (2, 1, 1)]%N /\
+      key_named (proj_of (o_world o) pi_table) 0
+        = [(bs "goos", bs "linux"); (bs "goarch", []); (bs ".unit", bs "sec/op")] /\
+      key_named (proj_of (o_world o') pi_table) 2
+        = [(bs "goarch", []); (bs "goos", bs "linux"); (bs ".unit", bs "sec/op")] /\
+      table_unit (proj_of (o_world o) pi_table) 2 = bs "B/op" /\
+      table_unit (proj_of (o_world o') pi_table) 1 = bs "B/op"
+  | _, _ => False
+  end.
+Proof. vm_compute. repeat split. apply perm_swap. Qed.
+
+(** ... and such runs have the anatomy the theorems speak about, with kept
+    results and assignments to apply them to *)
+Definition ex_lens (r : presult run_out) : option (list nat) :=
+  match r with POk o => Some (map (fun k => length (k_vals k)) (o_kept o)) | PErr _ => None end.
+Example C14_pipeline_table_key_example :
+  exists o assign k a,
+    Proofs.Pipeline.run_facts ex_is_space ex_is_lower ex_is_upper ex_atoi ex_pf (fun _ => true) (fun _ _ => false)
+      default_flags [(bs "a.txt", ex_textA); (bs "b.txt", ex_textB)] o assign /\
+    nth_error (o_kept o) 1 = Some k /\ nth_error assign 1 = Some a /\ length (Proofs.Pipeline.a_tables a) = 2.
+Proof.
+  assert (L : ex_lens ex_run_ab = Some [1; 2]) by (vm_compute; reflexivity).
+  assert (T : match ex_run_ab with
+              | POk o => exists assign,
+                  Proofs.Pipeline.run_facts ex_is_space ex_is_lower ex_is_upper ex_atoi ex_pf (fun _ => true) (fun _ _ => false)
+                    default_flags [(bs "a.txt", ex_textA); (bs "b.txt", ex_textB)] o assign
+              | PErr e => e <> EInternal /\ e <> EFuel
+              end).
+  { exact (C14_pipeline_total ex_is_space ex_is_lower ex_is_upper ex_atoi ex_pf (fun _ => true) (fun _ _ => false)
+             default_flags [(bs "a.txt", ex_textA); (bs "b.txt", ex_textB)]). }
+  destruct ex_run_ab as [o|e]; [|discriminate]. cbn [ex_lens] in L. injection L as L.
+  destruct T as [assign F].
+  pose proof (Proofs.Pipeline.rf_assign _ _ _ _ _ _ _ _ _ _ _ F) as A.
+  destruct (o_kept o) as [|k0 [|k1 [|k2 ks]]] eqn:EK; try discriminate.
+  inversion A as [|? a0 ? ? _ A1]; subst. inversion A1 as [|? a1 ? ? L1 _]; subst.
+  exists o, (a0 :: a1 :: l'0), k1, a1. split; [exact F|]. split; [now rewrite EK|]. split; [reflexivity|].
+  cbn in L. injection L as _ L. congruence.
+Qed.
